@@ -5,22 +5,25 @@
    implementation's observations. *)
 From Coq Require Import List NArith Bool.
 Import ListNotations.
-From AnySync Require Export Model.AclKeys.
+From AnySync Require Export Model.AclKeys Model.AclKeysTree.
 
 Inductive case :=
 | CHist (owner : acct) (root : rid) (U : list acct) (steps : list step)
-| CTree (t : tobs).
+| CTree (t : tobs)
+| COpen (rs : list round).   (* long-lived open trees of all accounts across one history, Model/AclKeysTree.v *)
 
 Definition model_ok (c : case) : bool :=
   match c with
   | CHist owner root U steps => run_matches false (kinit owner root U) steps
   | CTree t => tree_model_ok t
+  | COpen rs => open_tree_model_ok rs
   end.
 
 Definition spec_ok (c : case) : bool :=
   match c with
   | CHist owner root U steps => spec_C05 owner root steps
   | CTree t => spec_C05_tree t
+  | COpen rs => spec_C05_open rs
   end.
 
 Fixpoint check_from (i : N) (l : list case) : list (N * N) :=
